@@ -30,6 +30,7 @@ import (
 	"strings"
 	"sync/atomic"
 	"testing"
+	"testing/synctest"
 	"time"
 
 	"encoding/json"
@@ -328,6 +329,7 @@ type vC03Hist struct {
 	hits          int
 	forged        int
 	forgedLk      int
+	treeN         int
 }
 
 type vC03Stored struct {
@@ -2085,7 +2087,69 @@ func (h *vC03Hist) lookupAt(s vC03Spec) {
 
 func (h *vC03Hist) opGet() { h.getAt(h.lookupSpec()) }
 
+// resolver-internal lookups inside a request tree: an outer client request (with CD=1 and / or an EDNS Client
+// Subnet option, or neither) for a name nothing is cached for misses in the edns+cache pipeline; the handler below
+// the cache — where the resolver sits — then asks Store.GetWithContext, with the context the cache handed down,
+// for s.q in BOTH checking-disabled partitions, as Resolver.subQuery does for its DS / DNSKEY lookups.
+func (h *vC03Hist) getTreeAt(s vC03Spec) {
+	r := h.r
+	tcd, tecs := r.Intn(2) == 0, r.Intn(2) == 0
+	h.treeN++
+	outer := new(dns.Msg)
+	outer.SetQuestion(fmt.Sprintf("tree%d.vc03-outer-%d.", h.treeN, r.Intn(1000)), dns.TypeA)
+	outer.RecursionDesired = true
+	outer.CheckingDisabled = tcd
+	if tecs {
+		outer.SetEdns0(1232, r.Intn(2) == 0)
+		cl := vC03PickClient(r)
+		if !cl.IsValid() {
+			cl = netip.MustParsePrefix("10.1.2.0/24")
+		}
+		fam := uint16(2)
+		if cl.Addr().Is4() {
+			fam = 1
+		}
+		outer.IsEdns0().Option = append(outer.IsEdns0().Option, &dns.EDNS0_SUBNET{Code: dns.EDNS0SUBNET, Family: fam,
+			SourceNetmask: uint8(cl.Bits()), Address: net.IP(cl.Addr().AsSlice())})
+	}
+	type res struct {
+		cd  bool
+		out string
+	}
+	var got []res
+	reached := false
+	terminal := middleware.HandlerFunc(func(ctx context.Context, ch *middleware.Chain) {
+		reached = true
+		for _, cd := range []bool{s.cd, !s.cd} {
+			m, ok := h.c.store.GetWithContext(ctx, vC03Req(s.q, cd))
+			out := "BMiss"
+			if ok {
+				out = h.classify(m)
+			}
+			got = append(got, res{cd, out})
+		}
+		ch.Cancel()
+	})
+	writer := mock.NewWriter("udp", "192.0.2.7:53000")
+	ch := middleware.NewChain([]middleware.Handler{h.edns, h.c, terminal})
+	ch.Reset(writer, outer)
+	ch.Next(context.Background())
+	if !reached {
+		// the outer name was answered from the cache (a root-zone failure, a covering cut): no tree to look into
+		h.desc = append(h.desc, fmt.Sprintf("tree lookup skipped: outer request %v did not miss", outer.Question[0]))
+		return
+	}
+	for _, g := range got {
+		h.ops = append(h.ops, fmt.Sprintf("OpGetTree %s %s %s %s %s", vC03Bool(tcd), vC03Bool(tecs), s.q.coq(), vC03Bool(g.cd), g.out))
+		h.desc = append(h.desc, fmt.Sprintf("Store.GetWithContext[tree cd=%v ecs=%v] %v cd=%v -> %s", tcd, tecs, s.q, g.cd, g.out))
+	}
+}
+
 func (h *vC03Hist) getAt(s vC03Spec) {
+	if h.r.Intn(2) == 0 {
+		h.getTreeAt(s)
+		return
+	}
 	m, ok := h.c.store.Get(vC03Req(s.q, s.cd))
 	out := "BMiss"
 	if ok {
@@ -2210,7 +2274,197 @@ func (h *vC03Hist) caseTerm() string {
 		h.c.failure.initialTTL.Milliseconds(), h.c.failure.maxTTL.Milliseconds(), strings.Join(h.ops, "; "))
 }
 
+// ---- dedup followers.  A request that misses while another request for the same key is in flight waits for
+// that leader and, when the leader's generation ends, re-checks the cache before resolving itself.  Whatever was
+// admitted under the question's keys during the wait — the question's own answer, or a foreign entry under the very
+// same key (a forged placement standing in for a 64-bit collision) — is what that re-check finds.  The history
+// runs in a synctest bubble: the leader is parked inside the handler below the cache, the follower is started and
+// synctest.Wait() returns once it is durably blocked on the leader's generation; then the placement is made and the
+// leader released.  The follower's outcome is recorded as an ordinary message-born OpServe at the moment it woke.
+var vC03T *testing.T
+
+func (h *vC03Hist) placeAt(ident, key vC03Spec, how string) {
+	id := h.nextID
+	h.nextID++
+	k := h.keyOf(key)
+	resp := vC03Resp(ident.q, ident.cd, id)
+	if ident.scope.IsValid() {
+		h.c.store.SetFromResponseScoped(k, resp, ident.scope, time.Time{}, 0)
+	} else {
+		h.c.store.SetFromResponseWithKey(k, resp, time.Time{}, 0)
+	}
+	if e, ok := h.c.positive.Get(k); ok {
+		h.ptr[id] = e
+	} else {
+		h.failf("entry stored under %v is not in the positive cache", key)
+	}
+	if how != "genuine" {
+		h.forged++
+	}
+	h.stored = append(h.stored, vC03Stored{id: id, ident: ident, key: key, keyHash: k})
+	h.ops = append(h.ops, fmt.Sprintf("OpSet false %s %s %s %s %d", h.keysrc(key), ident.q.coq(), vC03Bool(ident.cd), vC03Scope(ident.scope), id))
+	h.desc = append(h.desc, fmt.Sprintf("set#%d[%s, while a follower waits] ident{%v} key{%v}", id, how, ident, key))
+}
+
+func (h *vC03Hist) followReq(s vC03Spec, client netip.Prefix) *dns.Msg {
+	req := vC03Req(s.q, s.cd)
+	if client.IsValid() {
+		req.SetEdns0(1232, false)
+		fam := uint16(2)
+		if client.Addr().Is4() {
+			fam = 1
+		}
+		req.IsEdns0().Option = append(req.IsEdns0().Option, &dns.EDNS0_SUBNET{Code: dns.EDNS0SUBNET, Family: fam,
+			SourceNetmask: uint8(client.Bits()), Address: net.IP(client.Addr().AsSlice())})
+	}
+	return req
+}
+
+func (h *vC03Hist) followRound() {
+	r := h.r
+	s := h.randSpec()
+	w := vC03WireOf(s.q.name)
+	if w == nil {
+		return
+	}
+	for i := 0; i < len(s.q.name); i++ {
+		if s.q.name[i] >= 0x80 {
+			return
+		}
+	}
+	// the audience both requests come from: none, or an ECS source inside the scope an answer would be filed under
+	var client netip.Prefix
+	if s.scope.IsValid() && r.Intn(2) == 0 {
+		client = netip.PrefixFrom(s.scope.Addr(), s.scope.Bits()+r.Intn(s.scope.Addr().BitLen()-s.scope.Bits()+1))
+	}
+	emit := func(who string, reached bool, writer *mock.Writer) {
+		out := "BMiss"
+		switch {
+		case reached && writer.Written():
+			h.failf("%s %v both missed and was answered", who, s)
+		case reached:
+		case writer.Written():
+			out = h.classify(writer.Msg())
+		default:
+			h.failf("%s %v: nothing written and the next handler not reached", who, s)
+		}
+		h.ops = append(h.ops, fmt.Sprintf("OpServe false %s %s %s %s %s", vC03Bytes(w), s.q.coq(), vC03Bool(s.cd), vC03Scope(client), out))
+		cl := "-"
+		if client.IsValid() {
+			cl = client.String()
+		}
+		h.desc = append(h.desc, fmt.Sprintf("serve[msg, %s] %v cd=%v ecs=%s -> %s", who, s.q, s.cd, cl, out))
+	}
+	release := make(chan struct{})
+	leaderIn := make(chan struct{})
+	leaderReached := false
+	leaderWriter := mock.NewWriter("udp", "192.0.2.7:53000")
+	leaderDone := make(chan struct{})
+	go func() {
+		defer close(leaderDone)
+		terminal := middleware.HandlerFunc(func(_ context.Context, _ *middleware.Chain) {
+			leaderReached = true
+			close(leaderIn)
+			<-release
+		})
+		ch := middleware.NewChain([]middleware.Handler{h.edns, h.c, terminal})
+		ch.Reset(leaderWriter, h.followReq(s, client))
+		ch.Next(context.Background())
+	}()
+	select {
+	case <-leaderIn:
+	case <-leaderDone:
+	}
+	if !leaderReached {
+		// answered from the cache: an ordinary observation, no wait to join
+		<-leaderDone
+		emit("leader", false, leaderWriter)
+		return
+	}
+	emit("leader", true, leaderWriter)
+	followerReached := false
+	followerWriter := mock.NewWriter("udp", "192.0.2.8:53001")
+	followerDone := make(chan struct{})
+	go func() {
+		defer close(followerDone)
+		terminal := middleware.HandlerFunc(func(_ context.Context, _ *middleware.Chain) { followerReached = true })
+		ch := middleware.NewChain([]middleware.Handler{h.edns, h.c, terminal})
+		ch.Reset(followerWriter, h.followReq(s, client))
+		ch.Next(context.Background())
+	}()
+	synctest.Wait() // the follower is blocked on the leader's generation (or has finished)
+	select {
+	case <-followerDone:
+		// it did not wait (its dedup key differs from the leader's): an ordinary observation
+		close(release)
+		<-leaderDone
+		emit("second request", followerReached, followerWriter)
+		return
+	default:
+	}
+	// what lands in the cache while the follower waits
+	shared := vC03Spec{q: s.q, cd: s.cd}
+	scopedKey := vC03Spec{q: s.q, cd: s.cd, scope: s.scope}
+	switch r.Intn(6) {
+	case 0: // the question's own answer for the shared audience
+		h.placeAt(shared, shared, "genuine")
+	case 1: // its own answer scoped to the client's subnet
+		if s.scope.IsValid() {
+			h.placeAt(scopedKey, scopedKey, "genuine")
+		} else {
+			h.placeAt(shared, shared, "genuine")
+		}
+	case 2, 3, 4: // a foreign entry (one dimension changed) under the question's shared key
+		ident, how := h.mutate(shared)
+		if how == "same" {
+			how = "genuine"
+		}
+		h.placeAt(ident, shared, how)
+	default: // a foreign entry under the scoped key the client's probe reaches
+		ident, how := h.mutate(scopedKey)
+		if how == "same" {
+			how = "genuine"
+		}
+		h.placeAt(ident, scopedKey, how)
+	}
+	close(release)
+	<-leaderDone
+	<-followerDone
+	emit("follower after the wait", followerReached, followerWriter)
+}
+
+func vC03FollowHistory(r *rand.Rand) (out map[string]any) {
+	synctest.Test(vC03T, func(_ *testing.T) {
+		pol := vC03Policies[r.Intn(len(vC03Policies))]
+		cfg := vC03Config(pol)
+		c := New(cfg)
+		defer c.Stop()
+		h := &vC03Hist{now: time.Unix(1_900_000_000, 0), r: r, c: c, edns: ednsmw.New(cfg), names: vC03Universe(r), nextID: 1, pol: pol,
+			ptr: map[uint64]*CacheEntry{}, keys: map[uint64]string{}, failIDs: map[string]uint64{}, cutIDs: map[uint64]bool{}}
+		c.failure.now = func() time.Time { return h.now }
+		if c.ecsPolicy == nil {
+			out = map[string]any{"inconclusive": true}
+			return
+		}
+		for i, n := 0, 3+r.Intn(3); i < n; i++ {
+			h.followRound()
+		}
+		if h.incon {
+			out = map[string]any{"inconclusive": true}
+			return
+		}
+		out = map[string]any{"k": "hist-follow", "coq": h.caseTerm(), "go_fail": h.fail, "nontrivial": h.forged > 0 || h.hits > 0, "desc": h.desc}
+	})
+	if out == nil {
+		out = map[string]any{"inconclusive": true}
+	}
+	return out
+}
+
 func vC03History(r *rand.Rand) map[string]any {
+	if r.Intn(12) == 0 {
+		return vC03FollowHistory(r)
+	}
 	// 0,1: answers; 2: + failures; 3: + cuts; 4: wire alias chase; 5: write-back through the pipeline;
 	// 6: background refresh (prefetch); 7: decoded-path alias chase over a store-backed Queryer
 	flavour := r.Intn(10)
@@ -2849,6 +3103,7 @@ func vC03AliasScanCase(r *rand.Rand) map[string]any {
 }
 
 func TestVerifC03Store(t *testing.T) {
+	vC03T = t
 	tr := vC03Open(t)
 	defer tr.f.Close()
 	vC03Corpus(t, tr)
